@@ -98,7 +98,15 @@ def vpl_stream(s):
         if s.get("emit", True):
             lines.append("    .emit(x: %s.x, k: %s.k)" % (s["l"], s["r"]))
     elif k == "merge":
-        lines = ["stream %s = merge(%s)" % (s["name"], ", ".join(s["srcs"]))] + vpl_ops(s["ops"])
+        def msrc(m):
+            # a name, or an inline filtered stream {"n": alias, "t": type, "thr": c}
+            return m if isinstance(m, str) else "stream %s = %s .where(x > %d)" % (m["n"], m["t"], m["thr"])
+        lines = ["stream %s = merge(%s)" % (s["name"], ", ".join(msrc(m) for m in s["srcs"]))] + vpl_ops(s["ops"])
+    elif k == "sseq":
+        # sequence(...) source: steps (alias, type, filter threshold or None)
+        steps = ", ".join("%s: %s%s" % (a, t, "" if thr is None else " where x > %d" % thr) for a, t, thr in s["ssteps"])
+        lines = ["stream %s = sequence(%s)" % (s["name"], steps)] + vpl_ops(s.get("ops", []))
+        lines.append("    .emit(x: %s.x, k: %s.k)" % (s["ssteps"][0][0], s["ssteps"][-1][0]))
     else:
         raise ValueError(k)
     return "\n".join(lines) + "\n"
@@ -107,6 +115,16 @@ def vpl_stream(s):
 def vpl_program(p):
     needs_fn = any(op[0] == "process" for s in p for op in s.get("ops", []))
     return (FN_DECL if needs_fn else "") + "".join(vpl_stream(s) for s in p)
+
+
+def merge_types(s):
+    return [m if isinstance(m, str) else m["t"] for m in s.get("srcs", [])]
+
+
+def source_refs(s):
+    """every event type / stream name a declaration mentions in its source or sequence steps"""
+    return [t for t in [s.get("src"), s.get("l"), s.get("r")] + list(s.get("steps", [])) + merge_types(s) + [t for _, t, _ in s.get("ssteps", [])]
+            if t is not None]
 
 
 def decl_key(s):
@@ -146,6 +164,8 @@ def consumes(p):
             return s["src"]
         if s["kind"] == "seq":
             return s["steps"][0]
+        if s["kind"] == "sseq":
+            return s["ssteps"][0][1]
         return None
 
     def resolve(t):
@@ -177,8 +197,13 @@ def consumes(p):
                 else:
                     add(t)
         elif s["kind"] == "merge":
-            for t in s["srcs"]:
+            for t in merge_types(s):
                 add(t)
+        elif s["kind"] == "sseq":
+            for _, t, _ in s["ssteps"]:
+                add(t)
+            for _, t, _ in s["ssteps"]:
+                add(resolve(t))
         res.append((s["name"], keys))
         earlier[s["name"]] = s
     return res
@@ -300,7 +325,7 @@ def gen_events(rng, p, n=None):
     types = list(RAW)
     used = set()
     for s in p:
-        for t in [s.get("src"), s.get("l"), s.get("r")] + list(s.get("steps", [])) + list(s.get("srcs", [])):
+        for t in source_refs(s):
             if t in RAW:
                 used.add(t)
     pool = sorted(used) * 3 + types
@@ -660,7 +685,7 @@ def count_case(run, case, shape, answers):
             pass
         else:
             run.count("stream-without-emit")
-        srcs = [s.get("src"), s.get("l"), s.get("r")] + list(s.get("steps", [])) + list(s.get("srcs", []))
+        srcs = source_refs(s)
         if any(t is not None and t not in RAW for t in srcs):
             run.count("stream-with-derived-source")
         if s["name"] in srcs:
